@@ -236,4 +236,23 @@ def groupSpec (C : GBConf) (nk : Nat) (rs : List Rec) (row : Row) : Int :=
   let g := ofKey C k rs
   if countOf g != 0 && rowEq (k ++ specResults C.aggs g) row then 1 else 0
 
+/-! ### what C16 assumes of an aggregate (the statement C14 proves of the real ones) -/
+/-- signed multiplicity of (the `Compare`-class of) `v` in a history -/
+def netH (h : Hist) (v : Value) : Int :=
+  (h.map fun x => if cmp x.2 v == 0 then (if x.1 then (-1 : Int) else 1) else 0).sum
+
+/-- no prefix of the history retracts a value that is not there -/
+def ValidHist (h : Hist) : Prop := ∀ n v, 0 ≤ netH (h.take n) v
+
+/-- **the C14 contract**: on valid histories the result depends (up to `Compare == 0`) only on the net
+    multiset of the values added -/
+def AggOK (f : Agg) : Prop :=
+  ∀ h₁ h₂, ValidHist h₁ → ValidHist h₂ → (∀ v, netH h₁ v = netH h₂ v) → cmp (f h₁) (f h₂) = 0
+
+/-- key and argument expressions do not tell apart records whose values are pointwise `Compare == 0`
+    (true of column references, which is what GROUP BY keys and aggregate arguments compile to here) -/
+structure ExprCongr (C : GBConf) : Prop where
+  key : ∀ a b : Row, rowEq a b = true → keq (C.keyOf a) (C.keyOf b) = true
+  arg : ∀ x ∈ C.aggs, ∀ a b : Row, rowEq a b = true → cmp (x.arg a) (x.arg b) = 0
+
 end Octo.Trig
